@@ -56,6 +56,9 @@ ElemsMism(e) ==
              ELSE IF e.set.bytes # enc \/ e.set.doff # 5 + Len(enc) \div 4 \/ e.set.hlen # 20 + Len(enc) THEN {"set_options.bytes"} ELSE {})
        \cup (IF Fits(l) THEN {} ELSE {"SPEC.Fits"})
        \cup (IF e.alt # 1 THEN {"encode.other_doors_differ"} ELSE {})
+       \* the same call on a header that already holds other bytes decoding to the same list
+       \cup (IF \E i \in 1..Len(e.pre) : e.pre[i].ok # 1 \/ e.pre[i].bytes # enc \/ e.pre[i].doff # 5 + Len(enc) \div 4 \/ e.pre[i].hlen # 20 + Len(enc)
+             THEN {"set_options.depends_on_previous_options"} ELSE {})
 
 VARIABLES l, bad
 TraceInit == l = 1 /\ bad = {}
